@@ -18,7 +18,9 @@ Shared memory (one `Store`):
                           inside its `slot.write` critical section (`wlock`).
                           A `Bundle` is one *installation* of an index file into a slot: `stamp` is a
                           ghost counter value unique to the installation (`set_slot_to_index`), `file`
-                          the on-disk file it was created for; `idx` / `pack` are the `OnDiskFileState`s.
+                          the on-disk file it was created for; `idx` / `pack` are the `OnDiskFileState`s;
+                          a multi-pack index is ONE installation standing for several packs (`more`:
+                          the states of pack 1, 2, …); a snapshot keeps it as one entry per pack (`pk`).
   * `pubGen pubSlots pubPtr pubInit`  the published `SlotMapIndex` (`self.index`, an ArcSwap).
   * `cons`                the state of the thread inside `consolidate_with_disk_state` (at most one:
                           it holds `self.write`).
@@ -39,7 +41,8 @@ Events = the atomic actions of the code (one atomic load/store/RMW, or one criti
   lp5         `load_pack`: the critical section that loads the pack
   loadIdx     `load_next_index`: the critical section that loads one index
   consBegin   `consolidate_with_disk_state`: `self.write.lock()`
-  consSetGen / consSetFiles   `set_slot_to_index`: `slot.generation.store(..)`, then `slot.files.store(..)`
+  consSetGen / consSetFiles / consSetFilesM   `set_slot_to_index`: `slot.generation.store(..)`, then
+              `slot.files.store(..)` (`consSetFilesM`: a multi-pack index standing for several packs)
   consPutBack `assure_slot_matches_index` on a disposable bundle
   consPublish `self.index.store(new_index)`
   consTrash   removal of a slot while handles need stable pack ids (`files.trash()`)
@@ -92,12 +95,26 @@ structure Bundle where
   multi : Bool
   idx : LoadSt
   pack : LoadSt
+  /-- a multi-pack index stands for several packs: the load states of pack 1, 2, … (pack 0 is `pack`) -/
+  more : List LoadSt := []
   deriving DecidableEq, Repr
 
 def Bundle.ident (b : Bundle) : Ident := { stamp := b.stamp, file := b.file }
-def Bundle.isDisposable (b : Bundle) : Bool := b.idx.isDisposable || b.pack.isDisposable
-def Bundle.putBack (b : Bundle) : Bundle := { b with idx := b.idx.putBack, pack := b.pack.putBack }
-def Bundle.trash (b : Bundle) : Bundle := { b with idx := b.idx.trash, pack := b.pack.trash }
+def Bundle.isDisposable (b : Bundle) : Bool :=
+  b.idx.isDisposable || b.pack.isDisposable || b.more.any LoadSt.isDisposable
+def Bundle.putBack (b : Bundle) : Bundle :=
+  { b with idx := b.idx.putBack, pack := b.pack.putBack, more := b.more.map LoadSt.putBack }
+def Bundle.trash (b : Bundle) : Bundle :=
+  { b with idx := b.idx.trash, pack := b.pack.trash, more := b.more.map LoadSt.trash }
+/-- the load state of pack `j` of the installation; a number the multi-pack index does not have reads as
+`missing` (`bundle.data.get(pack_index)` is `None`: `load_pack` returns `None`) -/
+def Bundle.packAt (b : Bundle) : Nat → LoadSt
+  | 0 => b.pack
+  | j + 1 => b.more.getD j LoadSt.missing
+def Bundle.setPackAt (b : Bundle) (j : Nat) (st : LoadSt) : Bundle :=
+  match j with
+  | 0 => { b with pack := st }
+  | j + 1 => { b with more := b.more.set j st }
 
 structure Slot where
   gen : Nat
@@ -113,6 +130,8 @@ structure Entry where
   id : Ident
   multi : Bool
   pack : Option Ident
+  /-- which pack of the installation the entry stands for (a multi-pack index is kept as one entry per pack) -/
+  pk : Nat := 0
   deriving DecidableEq, Repr
 
 structure Coll where
@@ -210,6 +229,8 @@ inductive Ev
   | consClearGen (k : Nat)
   | consClearFiles (k : Nat)
   | consEnd
+  /-- `set_slot_to_index` for a multi-pack index that stands for `extra + 1` packs -/
+  | consSetFilesM (k file extra : Nat)
   deriving DecidableEq, Repr
 
 def setAt {α : Type} (f : Nat → α) (i : Nat) (a : α) : Nat → α := fun j => if j = i then a else f j
@@ -230,6 +251,14 @@ def objsOf (disk : List (Nat × List Nat)) (file : Nat) : List Nat :=
 
 def entryOf (k : Nat) (b : Bundle) : Entry :=
   { slot := k, id := b.ident, multi := b.multi, pack := if b.pack.isLoaded then some b.ident else none }
+
+/-- the entry for pack `j` of an installation -/
+def entryAt (k : Nat) (b : Bundle) (j : Nat) : Entry :=
+  { slot := k, id := b.ident, multi := b.multi, pack := if (b.packAt j).isLoaded then some b.ident else none,
+    pk := j }
+
+/-- what `collect_snapshot` takes from a slot: one entry per pack of the installation -/
+def entriesOf (k : Nat) (b : Bundle) : List Entry := (List.range (b.more.length + 1)).map (entryAt k b)
 
 def swap0 {α : Type} (l : List α) (i : Nat) : List α :=
   match l[0]?, l[i]? with
@@ -273,7 +302,7 @@ def step (s : Sys) : Ev → Option Sys
       match c.todo with
       | k :: rest =>
         let acc := match (s.slots k).files with
-          | some b => if b.idx.isLoaded then c.acc ++ [entryOf k b] else c.acc
+          | some b => if b.idx.isLoaded then c.acc ++ entriesOf k b else c.acc
           | none => c.acc
         some (s.setHandle h { hd with coll := some { c with todo := rest, acc := acc } })
       | [] => none
@@ -338,7 +367,7 @@ def step (s : Sys) : Ev → Option Sys
         | none => some { (s.setHandle h { hd with pc := RPc.idle }) with panicked := true }
         | some b =>
           if b.multi != e.multi then some (s.setHandle h { hd with pc := RPc.idle })
-          else if b.pack.isLoaded then some (s.ret h hd i e b.ident)
+          else if (b.packAt e.pk).isLoaded then some (s.ret h hd i e b.ident)
           else none
       | none => none
     | _ => none
@@ -349,7 +378,7 @@ def step (s : Sys) : Ev → Option Sys
       match hd.entries[i]? with
       | some e =>
         let sl := s.slots e.slot
-        if b.multi == e.multi && !b.pack.isLoaded && !sl.wlock then
+        if b.multi == e.multi && !(b.packAt e.pk).isLoaded && !sl.wlock then
           if s.cfg.recheck && decide (sl.gen > hd.g) then some (s.setHandle h { hd with pc := RPc.idle })
           else
             match sl.files with
@@ -357,16 +386,16 @@ def step (s : Sys) : Ev → Option Sys
             | some b' =>
               if b'.multi != e.multi then some (s.setHandle h { hd with pc := RPc.idle })
               else
-                match b'.pack with
+                match b'.packAt e.pk with
                 | LoadSt.loaded => some (s.ret h hd i e b'.ident)
                 | LoadSt.garbage => some (s.ret h hd i e b'.ident)
                 | LoadSt.missing => some (s.setHandle h { hd with pc := RPc.idle })
                 | LoadSt.unloaded =>
                   if onDisk s.disk b'.file then
-                    some ((s.setSlot e.slot { sl with files := some { b' with pack := LoadSt.loaded } }).ret
+                    some ((s.setSlot e.slot { sl with files := some (b'.setPackAt e.pk LoadSt.loaded) }).ret
                       h hd i e b'.ident)
                   else
-                    some ((s.setSlot e.slot { sl with files := some { b' with pack := LoadSt.missing } }).setHandle
+                    some ((s.setSlot e.slot { sl with files := some (b'.setPackAt e.pk LoadSt.missing) }).setHandle
                       h { hd with pc := RPc.idle })
         else none
       | none => none
@@ -468,6 +497,17 @@ def step (s : Sys) : Ev → Option Sys
     match s.cons with
     | some c =>
       if c.pending = none ∧ (c.published = true ∨ c.bumped = false) then some { s with cons := none }
+      else none
+    | none => none
+  | Ev.consSetFilesM k file extra =>
+    match s.cons with
+    | some c =>
+      if c.published = false ∧ c.pending = some k then
+        let sl := s.slots k
+        let b : Bundle := { stamp := s.nextStamp, file := file, multi := true, idx := LoadSt.loaded,
+                            pack := LoadSt.unloaded, more := List.replicate extra LoadSt.unloaded }
+        some { (s.setSlot k { sl with files := some b, wlock := false }) with
+               cons := some { c with pending := none }, nextStamp := s.nextStamp + 1 }
       else none
     | none => none
 
